@@ -20,12 +20,14 @@ COQ_FILES = ["FA/Proofs/PipelineFacts.v", "FA/Proofs/PipelineSem.v", "FA/Proofs/
 LEVEL = ("Coq theorems over the composed model Model/Pipeline.v (acquire -> sugar -> follow -> Op(parent, lambda) with "
          "callback metadata -> terminal -> remove_empty -> ext, agg, simplify; node names and argument orders read from "
          "the generated tables) and an independently written direct semantics of chains (map / filter / concat-map, each "
-         "lambda under its own captured values): operator_chain_means_direct (untyped chains of ast lambdas incl. "
-         "comprehension / data-class sugar, any length and operator order: the built query evaluates to what the chain "
-         "computes, for every backend and dataset; through value() and a terminal), passes_preserve_meaning_ext_agg "
-         "(full), query_means_chain and passes_preserve_meaning relative to named hypotheses about the component models "
-         "(capture_sound, follow_sound, simp_ok).  Model tied to the code by exact comparison of the AST handed to the "
-         "executor on generated programs; the property itself checked on the implementation by executing the chains.")
+         "lambda under its own captured values).  Proved outright, for every backend and dataset, chains of any length and "
+         "operator order: operator_chain_means_direct (untyped chains of string / ast lambdas in C10's grammar, with "
+         "comprehension sugar, through a terminal and value()), captured_literals_chain_means_direct (the same with "
+         "callables whose captured variables are literals and whose bodies are in C04's first-order fragment), "
+         "remove_empty_preserves_meaning, passes_preserve_meaning_ext_agg.  Proved relative to named hypotheses about "
+         "component models: query_means_chain (capture_sound, follow_sound), passes_preserve_meaning and "
+         "fluent_query_end_to_end (simp_ok).  Model tied to the code by exact comparison of the AST handed to the executor "
+         "on generated programs; the property itself checked on the implementation by executing the chains.")
 TRUSTED = ["Coq 8.16.1 kernel (coqc); no axioms (Print Assumptions: closed under the global context)",
            "harness/sync_tables.py + harness/tables/*.py (operator_nodes, terminals, ext_default_ops, agg_rules read from the source)",
            "extraction: ExtrOcamlBasic + ExtrOcamlNativeString; ocaml/driver_pipe.ml codecs",
